@@ -351,7 +351,7 @@ pub fn final_probe<S: Service>(it: &mut Interp<S>, cycles: usize) -> Result<(), 
 
 fn scenario(cfg: Cfg, ops: Vec<Op>, sig: &str, obs: &mut Obs) -> Option<String> {
     let case = Case { cfg, ops, teardown: Teardown::ObjectsFirst };
-    let ro = RunOpts { opts: Opts { address_probe: true, canary: true, check_log: false }, final_probe: false, probe_cycles: 0 };
+    let ro = RunOpts { opts: Opts { address_probe: true, canary: true, check_log: false, recheck_after_limit: false }, final_probe: false, probe_cycles: 0 };
     match run_case(Variant::Local, &case, &ro, &Open::none(), obs) {
         Ok(_) => None,
         Err(f) if f.signature == sig => Some(f.message),
